@@ -8,7 +8,8 @@ from .core import TranslatorError
 OUTPUT = "HttpGen.v"
 ITEMS = ["TOKENRE", "_FIELD_VALUE_FORBIDDEN_CTL_RE", "VERSRE", "DIGITS", "HEXDIGITS", "SINGLETON_HEADERS",
          "EMPTY_BODY_METHODS", "_REQUEST_TARGET_FORBIDDEN_RE (optional)", "default limits", "MAX_MSG_QUEUE_SIZE",
-         "call-site modes", "empty_body rule", "payload re-raise rule", "Content-Encoding rule"]
+         "call-site modes", "empty_body rule", "payload re-raise rule", "Content-Encoding rule",
+         "partial-line length checks"]
 P = "aiohttp/http_parser.py"
 
 
@@ -32,6 +33,74 @@ def _default(cls, arg):
     if arg not in names or names.index(arg) < off:
         raise TranslatorError(f"{cls}.__init__: no default for {arg}")
     return core.literal(defaults[names.index(arg) - off])
+
+
+def _stmt_lists(fn):
+    for n in ast.walk(fn):
+        for fld in ("body", "orelse", "finalbody"):
+            v = getattr(n, fld, None)
+            if isinstance(v, list) and v and isinstance(v[0], ast.stmt):
+                yield v
+
+
+def _tail_check(cls, attr, old_test, recognise):
+    """The LineTooLong check on a buffered partial line in <cls>.feed_data: either `len(self.<attr>) > max_line_length`
+    (every buffered byte counts) or `tail_len > max_line_length` where `recognise(statements before the check)` says
+    that, when SEP == CRLF (strict parsing, the request parser), tail_len is len(tail) minus one trailing CR.
+    Anything else is not understood."""
+    fn = core.find_function(P, "feed_data", cls=cls)
+    found = []
+    for lst in _stmt_lists(fn):
+        for i, st in enumerate(lst):
+            if isinstance(st, ast.If) and len(st.body) == 1 and isinstance(st.body[0], ast.Raise) \
+                    and ast.unparse(st.body[0]).startswith(f"raise LineTooLong(self.{attr}"):
+                found.append((lst, i, st))
+    if len(found) != 1:
+        raise TranslatorError(f"{cls}.feed_data: expected one LineTooLong check on self.{attr}, found {len(found)}")
+    lst, i, st = found[0]
+    test = ast.unparse(st.test)
+    if test == old_test:
+        return False
+    if test == "tail_len > max_line_length":
+        stores = [x for x in lst[:i] if any(isinstance(n, ast.Name) and n.id == "tail_len" and isinstance(n.ctx, ast.Store)
+                                            for n in ast.walk(x))]
+        if recognise(stores):
+            return True
+        raise TranslatorError(f"{cls}.feed_data: unrecognised computation of tail_len: {[ast.unparse(x) for x in stores]}")
+    raise TranslatorError(f"{cls}.feed_data: unrecognised length check on self.{attr}: {test}")
+
+
+def _strict_first(test: ast.expr) -> bool:
+    """test is `SEP == b'\r\n'` or `SEP == b'\r\n' or ...`: true whenever parsing is strict"""
+    want = "SEP == b'\\r\\n'"
+    if ast.unparse(test) == want:
+        return True
+    return isinstance(test, ast.BoolOp) and isinstance(test.op, ast.Or) and ast.unparse(test.values[0]) == want
+
+
+def _head_rule(stores) -> bool:
+    # tail_len = len(self._tail) - self._tail.endswith(b'\r')      (both modes)
+    return [ast.unparse(x) for x in stores] == ["tail_len = len(self._tail) - self._tail.endswith(b'\\r')"]
+
+
+def _chunk_rule(stores) -> bool:
+    # tail_len = len(self._chunk_tail); if SEP == CRLF [or ...]: tail_len -= self._chunk_tail.endswith(CR)
+    if len(stores) != 2 or ast.unparse(stores[0]) != "tail_len = len(self._chunk_tail)":
+        return False
+    iff = stores[1]
+    return (isinstance(iff, ast.If) and _strict_first(iff.test)
+            and [ast.unparse(x) for x in iff.body] == ["tail_len -= self._chunk_tail.endswith(b'\\r')"])
+
+
+def _tail_checks() -> str:
+    head = _tail_check("HttpParser", "_tail", "len(self._tail) > max_line_length", _head_rule)
+    chunk = _tail_check("HttpPayloadParser", "_chunk_tail", "len(self._chunk_tail) > max_line_length", _chunk_rule)
+    b = lambda x: "true" if x else "false"
+    return ("(* strict parsing (SEP = CRLF): the length check on a buffered partial line does not count one trailing CR\n"
+            "   (HttpParser._tail: len(tail) - tail.endswith(CR); HttpPayloadParser._chunk_tail likewise); false = every\n"
+            "   buffered byte counts (len(tail) > max_line_length) *)\n"
+            f"Definition tail_check_discounts_cr : bool := {b(head)}.\n"
+            f"Definition chunk_tail_check_discounts_cr : bool := {b(chunk)}.\n")
 
 
 def generate() -> str:
@@ -123,6 +192,7 @@ def generate() -> str:
         raise TranslatorError(f"parse_headers: unrecognised Content-Encoding value: {rhs}")
     out.append(f"(* if {ast.unparse(encs[0].test)}: encoding = {rhs} *)\n"
                f"Definition content_encoding_lowered : bool := {'true' if rhs == 'enc.lower()' else 'false'}.\n")
+    out.append(_tail_checks())
     for arg, nm in (("max_line_size", "default_max_line"), ("max_headers", "default_max_headers"), ("max_field_size", "default_max_field")):
         out.append(f"Definition {nm} : N := {int(_default('HttpParser', arg))}.")
     v = core.literal(core.find_assign("aiohttp/web_protocol.py", "MAX_MSG_QUEUE_SIZE"))
